@@ -47,7 +47,7 @@ REL_SCALE = 8 * 2.220446049250313e-16      # "scales by x_mean/k": any associati
 REL_ID = 1e-12                              # intensity/SNR identities, quadrature sums
 REL_EST = 1e-9                              # clipped estimate
 
-SNRS = [0.0, 1.0, 10.0, 25.5, -3.0, 1e-3]
+SNRS = [0.0, 1.0, 10.0, 25.5, -3.0, 1e-3, 30, np.int8(30)]        # (the last two: integers, as a caller may well pass them)
 
 
 # ============================================================================ helpers
@@ -842,8 +842,9 @@ def case_stream(c):
                   % (j + 1, c['seq'][:j + 1], float(st.noise_std), float(st.get_total_noise_std()), np.sqrt(own2)))
                 break
         return {'viol': viol, 'outcomes': ['stream/custom/%d' % len(c['seq'])], 'nontrivial': [engine.sha(c)] if c['seq'] else []}
+    _tv = (lambda v: np.dtype(c['vtype']).type(v) if float(v).is_integer() and abs(v) < 100 else v) if c.get('vtype') else (lambda v: v)
     for j, (mu, sd) in enumerate(c['seq']):
-        st.add_noise(mu, sd)
+        st.add_noise(_tv(mu), _tv(sd))
         sources.append((mu, sd))
         own2 += sd * sd
         tag = 'after %d add_noise calls %s' % (j + 1, c['seq'][:j + 1])
@@ -1068,6 +1069,10 @@ def run(ctx):
             scases.append(dict(seq=[list(s) for s in seq], sample_rate=3e9 if d % 2 else 48e3, n=16, m=24, seed=seed))
             if d <= 2:
                 scases.append(dict(seq=[list(s) for s in seq], sample_rate=48e3, n=16, m=24, seed=seed, custom_first=True))
+    # (sub-box) whole-number means / deviations handed over as narrow numpy integers
+    for seq in ([[2, 3]], [[0, 20], [2, 3]], [[0, 90], [0, 90]], [[2, 3], [0, 20], [0, 90]]):
+        for vt in ('int8', 'uint8', 'int16', 'float16'):
+            scases.append(dict(seq=seq, sample_rate=48e3, n=16, m=24, seed=seed, vtype=vt))
     ctx.pmap(case_stream, scases)
     acases = []
     cfgs = [(1, 1, 3), (1, 2, 3), (2, 1, 3), (2, 2, 3), (3, 2, 2)] if not thorough else \
